@@ -831,7 +831,7 @@ func outsGen(c *hx.Ctx) {
 func outsRun(c *hx.Ctx) {
 	lab := outsNewLab(c)
 	rows := outsAllRows()
-	cw := c.NewCaseWriter("From NV Require Import lib.Outside_lib corr.Outside_corr.", "Outside_corr.case", "Outside_corr.check_case", 1500)
+	cw := c.NewCaseWriter("From NV Require Import lib.Outside_lib corr.Outside_corr.", "Outside_corr.case", "Outside_corr.check_case", 800)
 	emit := func(r outsRow, kind string) {
 		s := lab.eval(r)
 		d := r.json()
